@@ -49,21 +49,30 @@ Qed.
 (* the shuffle flag used to order the sowing is the flag the reaper un-shuffles with, for
    sow_combos(shuffle=...) and for sow_cases on a Crop(shuffle=...), reaped raw or to a dataset,
    by the same object or by one re-created from disk (wiring regenerated from cropping.py) *)
-Theorem C04_shuffle_alignment : forall (via_cases to_ds fresh : bool) (arg self0 : Z),
-  let self1 := if via_cases then self0 else arg in
+Theorem C04_shuffle_alignment : forall (via_cases to_ds fresh : bool) (arg : option Z) (self0 : Z),
+  let self1 := self_after_sow gen_wiring via_cases arg self0 in
   let '(used, saved) := sow_flags gen_wiring via_cases arg self0 in
   reap_flag gen_wiring to_ds fresh self1 saved = used.
-Proof. rewrite bridge_wiring. intros [|] [|] [|] arg self0; reflexivity. Qed.
+Proof. rewrite bridge_wiring. intros [|] [|] [|] [a|] self0; reflexivity. Qed.
 
 (* the old wiring (sow_cases not shuffling) misaligns: kept as the record of defect D3 *)
 Definition old_wiring : wiring :=
-  {| w_sow_combos_sets_self := true; w_sow_combos_run := SrcArg;
+  {| w_sow_combos_default := Some 0; w_sow_combos_sets_self := true; w_sow_combos_run := SrcArg;
      w_sow_cases_sets_self := false; w_sow_cases_run := SrcNone;
      w_saved := SrcSelf; w_sync_restores := false; w_reap_raw := SrcSaved; w_reap_ds := SrcSaved |}.
 Lemma C04_shuffle_alignment_refuted_old :
-  exists self0, let '(used, saved) := sow_flags old_wiring true 0 self0 in
+  exists self0, let '(used, saved) := sow_flags old_wiring true None self0 in
                 reap_flag old_wiring false true self0 saved <> used.
 Proof. exists 1. cbn. discriminate. Qed.
+
+(* sensitivity: a sow_combos whose shuffle parameter defaulted to None would sow a Crop(shuffle=s) unshuffled
+   while recording s *)
+Lemma C04_default_none_refuted :
+  let w := {| w_sow_combos_default := None; w_sow_combos_sets_self := true; w_sow_combos_run := SrcArg;
+              w_sow_cases_sets_self := false; w_sow_cases_run := SrcSelf;
+              w_saved := SrcSelf; w_sync_restores := false; w_reap_raw := SrcSaved; w_reap_ds := SrcSaved |} in
+  let '(used, saved) := sow_flags w false None 1 in reap_flag w false true 1 saved <> used.
+Proof. cbn. discriminate. Qed.
 
 (* the description (combos, cases) the reaper rebuilds the grid from -- the SAVED one -- is, as a term over
    the caller's arguments, the one the sowing runner enumerated and the one the batch planner counted, for
